@@ -33,7 +33,7 @@ fn map_compressed(v: &V, f: &dyn Fn(&mut Vec<V>), done: &mut bool) -> V {
 
 pub fn run(ctx: &Ctx) -> i32 {
     let th = ctx.tier.thorough();
-    let (depth, rw) = if th { (5, 6) } else { (4, 5) };
+    let (depth, rw) = if th { (6, 7) } else { (5, 6) };
     let mut rm = families::plain(rw);
     rm.extend(families::decode_only().into_iter().take(2));
     let mut roots = explore::roots_from(&rm);
@@ -86,7 +86,7 @@ pub fn run(ctx: &Ctx) -> i32 {
     let ops_ = ops();
     let (st, mut acc) = explore::explore(&roots, &ops_, depth, &on_state, &|_, _, _, _, _| {}, None);
     // faults on compressed elements
-    let fam: Vec<M> = families::marked(if th { 5 } else { 4 });
+    let fam: Vec<M> = families::marked(if th { 6 } else { 5 });
     let f = fam.par_iter().enumerate().with_max_len(1).map(|(fi, m)| {
         let mut acc = Acc::new();
         let e = bind::build(m, 0);
